@@ -3,6 +3,7 @@ package main
 // Symbolic interpreter for go/ssa, structured after x/tools/go/ssa/interp.
 
 import (
+	"strconv"
 	"fmt"
 	"go/token"
 	"go/types"
@@ -557,9 +558,12 @@ func (m *machine) pos(p token.Pos) string {
 func (m *machine) callSSA(caller *frame, callpos token.Pos, fn *ssa.Function, args []value, env []value) value {
 	name := cachedFuncName(fn) // fn.String() re-renders the type string on every call (20% of run time)
 	if fn.Parent() == nil || fn.Synthetic != "" {
-		if st, ok := m.stubs[name]; ok && !m.inStub[name] {
-			m.inStub[name] = true
-			defer func() { m.inStub[name] = false }()
+		// re-entrancy guard is per engine goroutine: another goroutine scheduled while this one
+		// is inside the stub (preemption at an atomic) must still get the stub, not the real code.
+		if st, ok := m.stubs[name]; ok && !m.inStub[stubKey(name, m.cur)] {
+			sk := stubKey(name, m.cur)
+			m.inStub[sk] = true
+			defer func() { m.inStub[sk] = false }()
 			m.stubCalls[name]++
 			return m.call(caller, callpos, st, args)
 		}
@@ -1139,4 +1143,11 @@ func (m *machine) iterNext(it value) value {
 		return tuple{true, uint64(pos), uint64(uint32(r))}
 	}
 	panic(fmt.Sprintf("iterNext: %T", it))
+}
+
+func stubKey(name string, g *gor) string {
+	if g == nil || g.id == 0 {
+		return name
+	}
+	return name + "#g" + strconv.Itoa(g.id)
 }
